@@ -154,9 +154,12 @@ func witnessInboxIDChecked(p *Pub, E *Effects) (bool, string) {
 			if !ff.has(c, idCall, fNONNIL, "") {
 				return false, pat + " is reachable with a nil id"
 			}
+			if ok, why := inboxIDUsableAt(ff, c); !ok {
+				return false, pat + ": " + why
+			}
 		}
 	}
-	return true, "PostInboxScheme reaches AuthorizePostInbox / PostInbox / InboxForwarding only where activity.GetJSONLDId() != nil"
+	return true, "PostInboxScheme reaches AuthorizePostInbox / PostInbox / InboxForwarding only where activity.GetJSONLDId() != nil and holds an IRI"
 }
 
 func witnessOutboxIDSet(p *Pub, E *Effects) (bool, string) {
